@@ -39,6 +39,18 @@ CLAIMED = {
             'Bounded symbolic model checking: (a) microsteps entering final states on shapes with finals at every level and inside parallel regions produce exactly the reference internal queue (done.state.<parent>, then done.state.<parallel> iff every region is final) and clear `running` exactly for a top-level final; (b) exitInterpreter from every legal configuration of every catalogue shape runs each onexit once in exit order, reports the final configuration, and sends done.invoke.<id> to the parent iff a parent session exists and a top-level final is active; (c) the main loop stops processing after a top-level final / cancel with events still queued.',
             'Trusted: as C02/C03; platform send replaced by a recording stub. Bounds as C01/C03.',
             'DESIGN.md §4 C07'),
+    'C08': ('model_checking', 'symbolic execution of rustc MIR (mirsym) + z3: the real RFsmExpressionDatamodel::executeContent on blocks of real content structs',
+            'Bounded symbolic model checking: for a block [marker, X, marker] with X ranging over every element kind and every error position, symbolic branch conditions and foreach lengths, the executed order (a marker trail in the data store), the exact error.execution / raised events on the internal queue, the abort behaviour and the assigned values equal the SCXML expectation on every feasible path. The real lexer, parser and evaluator of the rfsm-expression language are interpreted.',
+            'Trusted: mirsym + environment models; expectations coded in harness/src/h_content.rs from the Recommendation. Outside: ECMAScript model, deeper nestings. Three defects repaired (fix: commits 99b1914, e7a4a83, 883c814).',
+            'DESIGN.md §4 C08'),
+    'C10': ('model_checking', 'symbolic execution of rustc MIR (mirsym) + z3 over arbitrary i64 operands through the real lexer/parser/evaluator; Kani/CBMC for the f64 operator kernel (thorough)',
+            'Bounded symbolic model checking: Integer operators equal saturating arithmetic for all i64 pairs; every expression "a op1 b op2 c" (and three-operator chains) over {+,-,*,%} parsed and evaluated by the real code equals the precedence/left-associativity oracle for all operand values (z3 equalities over 64-bit vectors); cache vs fresh compilation agree for all values; assignment semantics; a 28-item catalogue fixes mixed-type, comparison, logic, aggregation, member/index and spelling cases. Thorough: Kani decides Double contagion / no panic for any f64 x any i64.',
+            'Trusted: mirsym + environment models, the oracle table in harness/src/h_expr.rs. One repaired defect (right-to-left grouping, d1ab216); one known finding (minus directly before a digit).',
+            'DESIGN.md §4 C10'),
+    'C11': ('model_checking', 'symbolic execution of rustc MIR (mirsym) + z3: panic / self-deadlock / non-termination reachability with symbolic characters and aliasing operands',
+            'Bounded symbolic model checking of crash freedom: every feasible path of parsing a text of 2 (thorough: 3) arbitrary Unicode characters in three contexts, of evaluating 24 malformed/extreme texts, of Integer % for all operand pairs and of 10 expressions whose operands alias the same stored value ends with a value or an error: no panic terminator reachable, no lock on a mutex already held by the thread (holder-tracking model), step budget not exhausted; the store is usable afterwards.',
+            'Trusted: mirsym + environment models (parse::<f64>/<i64> of symbolic text over-approximated). Outside: longer arbitrary texts, unbounded nesting depth. Four defects repaired (1f9d77f, 4a14edf, e7620cf, 7367918).',
+            'DESIGN.md §4 C11'),
 }
 NA_REASON = {}
 
